@@ -42,7 +42,8 @@ def _work():
 def compile_run(src, name=None, run=True, expanded=False, env_extra=None, cwd=None, keep=False):
     """returns dict(ok, errors=[headlines], stderr, stdout)"""
     so, deps = build_dylib()
-    h = name or hashlib.sha1(src.encode()).hexdigest()[:16]
+    import uuid
+    h = name or (hashlib.sha1(src.encode()).hexdigest()[:12] + uuid.uuid4().hex[:8])
     d = _work()
     path = os.path.join(d, h + '.rs')
     open(path, 'w').write(src)
